@@ -1,0 +1,182 @@
+//go:build verif
+
+// Contracts for SUB, IDENTIFY, AUTH of protocol_v2.go and their helpers (C09, C11, C03), checked by nsqvc.
+// Comment-only file. They replace the trusted stubs that stood in zz_contracts_protocol_consumer_verif.go.
+
+package nsqd
+
+// ---- ghosts -----------------------------------------------------------------------------------------
+// lGetChan* : Topic.GetChannel calls (count, result, name, topic, and the auth bookkeeping at that moment; set by its contract).
+// lAddClient* / lRemove* : Channel.AddClient / RemoveClient calls (count, channel, connection id, result).
+//@ ghost lGetChanCalls int
+//@ ghost lGotChan *Channel
+//@ ghost lGotChanName string
+//@ ghost lGotChanTopic *Topic
+//@ ghost lGotChanAuthSeq int
+//@ ghost lGotChanAuthOK bool
+//@ ghost lAddCalls int
+//@ ghost lAddChan *Channel
+//@ ghost lAddID int64
+//@ ghost lAddErr error
+//@ ghost lRemoveCalls int
+//@ ghostgroup lAddCalls, lAddChan, lAddID, lAddErr
+//@ ghostgroup lRemoveCalls, lRemoveChan, lRemoveID
+//@ ghost lRemoveChan *Channel
+//@ ghost lRemoveID int64
+
+// A channel as NewChannel builds it: owner, backend queue and consumer table are there (Topic lock invariant).
+//@ pred lChanUsable(c *Channel) := c != nil && c.nsqd != nil && c.backend != nil
+
+//@ func (t *Topic) Exiting() bool
+//@   props C09
+//@   nochan
+//@   requires t != nil
+//@   ensures[flag] result == (t.exitFlag == 1)
+//@   modifies
+
+// AddClient / RemoveClient: verified contracts in zz_contracts_kchannel_verif.go (they also maintain the lAdd* / lRemove* ghosts).
+
+// ---- SUB <topic> <channel> ---------------------------------------------------------------------------
+// Decision table (C09): state init, heartbeats enabled, >= 3 words, valid topic name, valid channel name, authorised.
+// C11: the auth check precedes every GetTopic / GetChannel of this call and passed; a denial creates nothing.
+// C03: success = the connection is subscribed, has its channel, is registered with it, and the pump is told.
+//@ pred lSubErr(err error) := fatalErr(err, "E_INVALID") || fatalErr(err, "E_BAD_TOPIC") || fatalErr(err, "E_BAD_CHANNEL") || fatalErr(err, "E_SUB_FAILED") ||
+//@      fatalErr(err, "E_AUTH_FIRST") || fatalErr(err, "E_AUTH_FAILED") || fatalErr(err, "E_UNAUTHORIZED")
+//@ func (p *protocolV2) SUB(client *clientV2, params [][]byte) ([]byte, error)
+//@   onreturn cmdHandled := cmdHandled + 1
+//@   props C09 C11 C03
+//@   requires validPubCtx(p, client)
+//@   ensures[errors] result1 != nil ==> lSubErr(result1)
+//@   ensures[state-check] old(client.State) != stateInit ==> fatalErr(result1, "E_INVALID")
+//@   ensures[heartbeats-required] client.HeartbeatInterval <= 0 ==> fatalErr(result1, "E_INVALID")
+//@   ensures[param-count] len(params) < 3 ==> fatalErr(result1, "E_INVALID")
+//@   ensures[refused-early-creates-nothing] fatalErr(result1, "E_INVALID") || fatalErr(result1, "E_BAD_TOPIC") || fatalErr(result1, "E_BAD_CHANNEL") ==>
+//@        getTopicCalls == old(getTopicCalls) && lGetChanCalls == old(lGetChanCalls) && authCalls == old(authCalls)
+//@   ensures[names-valid] getTopicCalls != old(getTopicCalls) ==> validName(gotTopicName) && validName(lGotChanName)
+//@   ensures[auth-before-topic] getTopicCalls != old(getTopicCalls) ==> authCalls == old(authCalls) + 1 && gotTopicAuthSeq == authCalls && gotTopicAuthOK
+//@   ensures[auth-before-channel] lGetChanCalls != old(lGetChanCalls) ==> authCalls == old(authCalls) + 1 && lGotChanAuthSeq == authCalls && lGotChanAuthOK
+//@   ensures[denied-leaves-no-trace] fatalErr(result1, "E_AUTH_FIRST") || fatalErr(result1, "E_AUTH_FAILED") || fatalErr(result1, "E_UNAUTHORIZED") ==>
+//@        getTopicCalls == old(getTopicCalls) && lGetChanCalls == old(lGetChanCalls) && lAddCalls == old(lAddCalls)
+//@   ensures[subscribed] result1 == nil ==> client.State == stateSubscribed && client.Channel != nil && client.Channel == lGotChan && lGotChanTopic == gotTopic &&
+//@        lChanUsable(client.Channel) && result0 == okBytes
+//@   ensures[registered] result1 == nil ==> lAddChan == client.Channel && lAddID == client.ID && lAddErr == nil
+//@   ensures[pump-told] result1 == nil ==> lastsent(client.SubEventChan) == client.Channel
+//@   ensures[failed-not-subscribed] result1 != nil ==> client.State == old(client.State) && client.Channel == old(client.Channel)
+//@   ensures[failed-not-registered] result1 != nil && lAddCalls != old(lAddCalls) ==> lAddErr != nil || (lRemoveCalls != old(lRemoveCalls) && lRemoveChan == lAddChan && lRemoveID == lAddID)
+//@   modifies client.State, client.Channel, client.AuthState, authQueries, lastNow, lastAuthQueryOK, authCalls, authOK,
+//@        getTopicFrame, Channel.clients, mapstore(map[int64]Consumer), onceSpawns,
+//@        lAddCalls, lAddChan, lAddID, lAddErr, lRemoveCalls, lRemoveChan, lRemoveID, chanstore(*Channel)
+//@   loop 0
+//@     invariant[auth-passed] authCalls == old(authCalls) + 1 && authOK
+//@     invariant[untouched] client.State == old(client.State) && client.Channel == old(client.Channel)
+//@     invariant[names] validName(topicName) && validName(channelName)
+//@     invariant[topic-auth] getTopicCalls != old(getTopicCalls) ==> gotTopicAuthSeq == authCalls && gotTopicAuthOK && gotTopicName == topicName
+//@     invariant[chan-auth] lGetChanCalls != old(lGetChanCalls) ==> lGotChanAuthSeq == authCalls && lGotChanAuthOK && lGotChanName == channelName
+//@     invariant[both] (getTopicCalls != old(getTopicCalls)) <==> (lGetChanCalls != old(lGetChanCalls))
+//@     invariant[monotone] getTopicCalls >= old(getTopicCalls) && lGetChanCalls >= old(lGetChanCalls) && lAddCalls >= old(lAddCalls) && lRemoveCalls >= old(lRemoveCalls)
+//@     invariant[retry-after-remove] lAddCalls != old(lAddCalls) ==> lAddErr == nil && lRemoveCalls != old(lRemoveCalls) && lRemoveChan == lAddChan && lRemoveID == lAddID
+
+// ---- connection upgrades (IDENTIFY feature negotiation) ------------------------------------------------
+// Each replaces the reader / writer pair by one layered over the TLS / compression stream; the connection
+// always keeps a reader and a writer; the TLS flag is raised only by a completed handshake. (UpgradeDeflate / UpgradeSnappy
+// always return nil today; that is deliberately NOT stated: IDENTIFY's error branches after them would become
+// unreachable and the engine reports unreachable returns as vacuity faults.)
+//@ func (c *clientV2) UpgradeTLS() error
+//@   props C09 C11
+//@   nochan
+//@   requires c != nil && c.nsqd != nil && c.Reader != nil && c.Writer != nil
+//@   ensures[io-kept] c.Reader != nil && c.Writer != nil
+//@   ensures[tls-iff-handshake] (result == nil ==> c.TLS == 1) && (result != nil ==> c.TLS == old(c.TLS))
+//@   modifies c.tlsConn, c.Reader, c.Writer, c.TLS, lastNow
+//@ func (c *clientV2) UpgradeDeflate(level int) error
+//@   props C09
+//@   nochan
+//@   requires c != nil
+//@   ensures[io-kept] c.Reader != nil && c.Writer != nil
+//@   modifies c.flateWriter, c.Reader, c.Writer, c.Deflate
+//@ func (c *clientV2) UpgradeSnappy() error
+//@   props C09
+//@   nochan
+//@   requires c != nil
+//@   ensures[io-kept] c.Reader != nil && c.Writer != nil
+//@   modifies c.Reader, c.Writer, c.Snappy
+
+// ---- clientV2.Identify: applies the IDENTIFY settings; every out-of-range value is refused --------------
+//@ ghost lIdentifyCalls int
+//@ ghost lIdentifyErr error
+//@ pred lHbOK(c *clientV2, d int) := d == -1 || d == 0 || hbInRange(c, d)
+//@ pred lMtOK(c *clientV2, m int) := m == 0 || mtInRange(c, m)
+//@ func (c *clientV2) Identify(data identifyDataV2) error
+//@   props C09
+//@   requires c != nil && c.nsqd != nil && c.Writer != nil
+//@   ensures[heartbeat-range] !lHbOK(c, data.HeartbeatInterval) ==> result != nil
+//@   ensures[output-buffer-range] !obtOK(c, data.OutputBufferTimeout) || !obsOK(c, data.OutputBufferSize) ==> result != nil
+//@   ensures[sample-rate-range] data.SampleRate < 0 || data.SampleRate > 99 ==> result != nil
+//@   ensures[msg-timeout-range] !lMtOK(c, data.MsgTimeout) ==> result != nil
+//@   ensures[accepted-values] result == nil ==> c.SampleRate == data.SampleRate && (data.MsgTimeout != 0 ==> c.MsgTimeout == data.MsgTimeout * 1000000) &&
+//@        (data.HeartbeatInterval > 0 ==> c.HeartbeatInterval == data.HeartbeatInterval * 1000000) && (data.HeartbeatInterval == -1 ==> c.HeartbeatInterval == 0)
+//@   ensures[writer-kept] c.Writer != nil
+//@   modifies c.ClientID, c.Hostname, c.UserAgent, c.TopologyRegion, c.TopologyZone, c.HeartbeatInterval, c.OutputBufferTimeout, c.OutputBufferSize, c.Writer, c.SampleRate, c.MsgTimeout,
+//@        chanstore(identifyEvent), lIdentifyCalls, lIdentifyErr
+//@   onreturn lIdentifyCalls := lIdentifyCalls + 1
+//@   onreturn lIdentifyErr := result
+
+//@ func (c *clientV2) Auth(secret string) error
+//@   props C11 C09
+//@   requires c != nil
+//@   ensures[failed-keeps-state] result != nil ==> c.AuthState == old(c.AuthState)
+//@   ensures[ok-has-state] result == nil ==> c.AuthState != nil
+//@   ensures[one-query] authQueries == old(authQueries) + 1 && lastAuthQueryOK == (result == nil)
+//@   modifies c.AuthSecret, c.AuthState, authQueries, lastAuthQueryOK
+
+// ---- IDENTIFY\n[4-byte size][JSON] -------------------------------------------------------------------
+// Decision table (C09): state init; the size field is read completely, is in [1, max-body-size] (so the body
+// allocation is never negative or oversized: the automatic safety[make] obligation); the body is read completely;
+// the JSON decodes; every setting is in range (clientV2.Identify); deflate and snappy exclude each other.
+// Every refusal is fatal with the documented code and happens before anything is written to the connection.
+//@ pred lIdentifyErrCode(err error) := fatalErr(err, "E_INVALID") || fatalErr(err, "E_BAD_BODY") || fatalErr(err, "E_IDENTIFY_FAILED")
+//@ func (p *protocolV2) IDENTIFY(client *clientV2, params [][]byte) ([]byte, error)
+//@   onreturn cmdHandled := cmdHandled + 1
+//@   onreturn identifyCalls := identifyCalls + 1
+//@   props C09 C11
+//@   requires validPubCtx(p, client) && lConnOK(client)
+//@   ensures[errors] result1 != nil ==> lIdentifyErrCode(result1)
+//@   ensures[state-check] old(client.State) != stateInit ==> fatalErr(result1, "E_INVALID") && rPos == old(rPos) && lIdentifyCalls == old(lIdentifyCalls)
+//@   ensures[short-read] rErrs != old(rErrs) ==> fatalErr(result1, "E_BAD_BODY") && lIdentifyCalls == old(lIdentifyCalls)
+//@   ensures[bad-size] rPos >= old(rPos) + 4 && declLen(old(rPos)) <= 0 ==> fatalErr(result1, "E_BAD_BODY") && rPos == old(rPos) + 4 && lIdentifyCalls == old(lIdentifyCalls)
+//@   ensures[too-big; uses opts_fixed] rPos >= old(rPos) + 4 && declLen(old(rPos)) > cfgMaxBodySize() ==> fatalErr(result1, "E_BAD_BODY") && rPos == old(rPos) + 4 && lIdentifyCalls == old(lIdentifyCalls)
+//@   ensures[body-consumed] lIdentifyCalls != old(lIdentifyCalls) ==> rPos == old(rPos) + 4 + declLen(old(rPos)) && lIdentifyCalls == old(lIdentifyCalls) + 1
+//@   ensures[settings-refused] lIdentifyCalls != old(lIdentifyCalls) && lIdentifyErr != nil ==> fatalErr(result1, "E_BAD_BODY") && lSendCalls == old(lSendCalls)
+//@   ensures[refused-writes-nothing] fatalErr(result1, "E_INVALID") || fatalErr(result1, "E_BAD_BODY") ==> lSendCalls == old(lSendCalls) && wN == old(wN)
+//@   ensures[accepted] result1 == nil ==> lIdentifyCalls == old(lIdentifyCalls) + 1 && lIdentifyErr == nil
+//@   ensures[tls-only-by-upgrade] client.TLS != old(client.TLS) ==> client.TLS == 1
+//@   ensures[one-compression] !(client.Deflate != old(client.Deflate) && client.Snappy != old(client.Snappy))
+//@   ensures[context-kept] lConnOK(client) && client.Reader != nil && client.State == old(client.State) && client.Channel == old(client.Channel)
+//@   modifies elems(byte), rPos, rErrs, rForeign, rfErr, rfLen, wN, wOut, wCalls, wErrs, wLastErr, wForeign, lastNow, wdlConn, wdlAt, lFlushes, lSendCalls, lSendFrame, lSendClient, lSendErr,
+//@        client.ClientID, client.Hostname, client.UserAgent, client.TopologyRegion, client.TopologyZone, client.HeartbeatInterval, client.OutputBufferTimeout, client.OutputBufferSize,
+//@        client.Writer, client.Reader, client.SampleRate, client.MsgTimeout, client.tlsConn, client.TLS, client.flateWriter, client.Deflate, client.Snappy,
+//@        chanstore(identifyEvent), lIdentifyCalls, lIdentifyErr
+
+// ---- AUTH\n[4-byte size][secret] ---------------------------------------------------------------------
+// Decision table (C09/C11): state init; exactly one word; size in [1, max-body-size] (no negative allocation); body read
+// completely; not already authorised; auth enabled; the auth server answered; the answer grants something.
+//@ pred lAuthErrCode(err error) := fatalErr(err, "E_INVALID") || fatalErr(err, "E_BAD_BODY") || fatalErr(err, "E_AUTH_DISABLED") || fatalErr(err, "E_AUTH_FAILED") ||
+//@      fatalErr(err, "E_UNAUTHORIZED") || fatalErr(err, "E_AUTH_ERROR")
+//@ func (p *protocolV2) AUTH(client *clientV2, params [][]byte) ([]byte, error)
+//@   onreturn cmdHandled := cmdHandled + 1
+//@   props C09 C11
+//@   requires validPubCtx(p, client) && lConnOK(client)
+//@   ensures[errors] result1 != nil ==> lAuthErrCode(result1)
+//@   ensures[state-check] old(client.State) != stateInit ==> fatalErr(result1, "E_INVALID") && rPos == old(rPos) && authQueries == old(authQueries)
+//@   ensures[param-count] len(params) != 1 ==> fatalErr(result1, "E_INVALID") && rPos == old(rPos) && authQueries == old(authQueries)
+//@   ensures[short-read] rErrs != old(rErrs) ==> fatalErr(result1, "E_BAD_BODY") && authQueries == old(authQueries)
+//@   ensures[bad-size] rPos >= old(rPos) + 4 && declLen(old(rPos)) <= 0 ==> fatalErr(result1, "E_BAD_BODY") && rPos == old(rPos) + 4 && authQueries == old(authQueries)
+//@   ensures[too-big; uses opts_fixed] rPos >= old(rPos) + 4 && declLen(old(rPos)) > cfgMaxBodySize() ==> fatalErr(result1, "E_BAD_BODY") && rPos == old(rPos) + 4 && authQueries == old(authQueries)
+//@   ensures[already-authorised] authQueries != old(authQueries) ==> old(client.AuthState) == nil || len(old(client.AuthState.Authorizations)) == 0
+//@   ensures[disabled] len(curOpts(client.nsqd).AuthHTTPAddresses) == 0 ==> result1 != nil && authQueries == old(authQueries)
+//@   ensures[query-failed] authQueries != old(authQueries) && !lastAuthQueryOK ==> fatalErr(result1, "E_AUTH_FAILED") && client.AuthState == old(client.AuthState)
+//@   ensures[accepted] result1 == nil ==> authQueries == old(authQueries) + 1 && lastAuthQueryOK && client.AuthState != nil && len(client.AuthState.Authorizations) != 0
+//@   ensures[refused-writes-nothing] result1 != nil && !fatalErr(result1, "E_AUTH_ERROR") ==> lSendCalls == old(lSendCalls) && wN == old(wN)
+//@   ensures[context-kept] lConnOK(client) && client.Reader != nil && client.State == old(client.State) && client.Channel == old(client.Channel)
+//@   modifies elems(byte), rPos, rErrs, rForeign, rfErr, rfLen, wN, wOut, wCalls, wErrs, wLastErr, wForeign, lastNow, wdlConn, wdlAt, lFlushes, lSendCalls, lSendFrame, lSendClient, lSendErr,
+//@        client.AuthSecret, client.AuthState, authQueries, lastAuthQueryOK, authCalls, authOK
